@@ -45,7 +45,7 @@ func runC20(c *Ctx) error {
 			mcs = append(mcs, mc{ap, o, false})
 		}
 	}
-	n := c.Pick(10, 200)
+	n := c.Pick(10, 2000)
 	for i := 0; i < n; i++ {
 		var o []string
 		for k := 0; k < 1+c.Rng.Intn(8); k++ {
